@@ -125,7 +125,7 @@ fn main() {
 
         let quick = p.quick();
         let only = std::env::var("C04_ONLY").ok();
-        let per_op_complete: u32 = p.tier.pick(24, 360);
+        let per_op_complete: u32 = p.tier.pick(16, 360);
         let s2_inputs: usize = p.tier.pick(2, 4);
         let fams = catalogue();
 
@@ -208,186 +208,211 @@ fn main() {
                     items,
                     16,
                     false,
-                    |c| run_flip(find(&c.op), c, p.tier.pick(40, 80), p.tier.pick(2, 4)),
+                    |c| run_flip(find(&c.op), c, p.tier.pick(30, 80), p.tier.pick(2, 4)),
                 );
             }
         };
-        if p.is_replay() {
-            fams.iter().for_each(&run_family);
-        } else {
-            std::thread::scope(|sc| {
-                for fam in &fams {
-                    let run_family = &run_family;
-                    sc.spawn(move || run_family(fam));
-                }
-            });
-        }
-
-        // (3) F18: chunk sizes >= 64 bits, separate so that the main sub-checks keep going
-        let ops18 = f18_ops();
-        let mut rng = SplitMix(vpcore::derive_seed(&["C04", "f18"], p.seed));
-        let mut items = vec![];
-        for op in &ops18 {
-            for _ in 0..p.tier.pick(3, 24) {
-                let picks = (0..4).map(|_| ((rng.next_u64() % N_CLS as u64) as u8, rng.next_u64())).collect();
-                items.push(Case { op: op.name(), picks, seed: rng.next_u64() });
-            }
-        }
-        p.enumerate(
-            "to_le_chunks(>=64bit)",
-            "non-trivial iff the honest decomposition with a chunk size >= 64 bits was checked on an in-domain input",
-            items,
-            16,
-            false,
-            |c| -> CaseResult {
-                let op = ops18.iter().find(|o| o.name() == c.op).expect("harness: unknown op");
-                match run_complete(op, c) {
-                    Ok(v) => Ok(v),
-                    Err(f) if f.signature.contains(":incomplete:") => {
-                        let kind = f.signature.rsplit(':').next().unwrap_or("").to_string();
-                        Err(Failure::new(format!("to_le_chunks(>=64bit):incomplete:{kind}"), format!("{}: {}", op.name(), f.detail)))
+        // the family lanes and the targeted sub-checks below run side by side
+        let families = || {
+            if p.is_replay() {
+                fams.iter().for_each(&run_family);
+            } else {
+                // a few families at a time: each sub-check brings its own 16 streams, and more than
+                // ~50 threads synthesising at once spend their time in the allocator and the kernel
+                let next = std::sync::atomic::AtomicUsize::new(0);
+                let lanes: usize = std::env::var("C04_LANES").ok().and_then(|v| v.parse().ok()).unwrap_or(6);
+                std::thread::scope(|sc| {
+                    for _ in 0..lanes {
+                        let (run_family, next, fams) = (&run_family, &next, &fams);
+                        sc.spawn(move || loop {
+                            let i = next.fetch_add(1, std::sync::atomic::Ordering::Relaxed);
+                            if i >= fams.len() {
+                                break;
+                            }
+                            run_family(&fams[i]);
+                        });
                     }
-                    Err(f) => Err(f),
+                });
+            }
+        };
+        let targeted = || {
+            // (3) F18: chunk sizes >= 64 bits, separate so that the main sub-checks keep going
+            let ops18 = f18_ops();
+            let mut rng = SplitMix(vpcore::derive_seed(&["C04", "f18"], p.seed));
+            let mut items = vec![];
+            for op in &ops18 {
+                for _ in 0..p.tier.pick(3, 24) {
+                    let picks = (0..4).map(|_| ((rng.next_u64() % N_CLS as u64) as u8, rng.next_u64())).collect();
+                    items.push(Case { op: op.name(), picks, seed: rng.next_u64() });
                 }
-            },
-        );
-
-        // (3b) padding_flag finding: payload entirely in the last chunk
-        let ops_pf = padflag_ops();
-        let mut rng = SplitMix(vpcore::derive_seed(&["C04", "padflag"], p.seed));
-        let mut items = vec![];
-        for op in &ops_pf {
-            for _ in 0..p.tier.pick(2, 12) {
-                let picks = (0..4).map(|_| ((rng.next_u64() % N_CLS as u64) as u8, rng.next_u64())).collect();
-                items.push(Case { op: op.name(), picks, seed: rng.next_u64() });
             }
-        }
-        p.enumerate(
-            "vector.padding_flag(0<len<=A)",
-            "non-trivial iff the vector's final length is in 1..=A (payload entirely in the last chunk) and the circuit's accepted flags were compared with the definition",
-            items,
-            16,
-            false,
-            |c| -> CaseResult {
-                let op = ops_pf.iter().find(|o| o.name() == c.op).expect("harness: unknown op");
-                padflag_probe(op, c)
-            },
-        );
-
-        // (3c) canonicity of the full-width bit decomposition: rewrite the whole
-        // decomposition to the representation of x + p
-        {
-            use num_bigint::BigUint;
-            let pm = modulus_p();
-            let lim = pow2(255) - &pm;
-            let mut rng = SplitMix(vpcore::derive_seed(&["C04", "noncanonical"], p.seed));
-            let mut xs: Vec<BigUint> = vec![big(0), big(1), big(2), &lim - big(1), &lim - big(2)];
-            for _ in 0..p.tier.pick(3, 40) {
-                xs.push(BigUint::from_bytes_le(&rng.bytes(40)) % &lim);
-            }
-            let ops_nc = vec![
-                NOp::new(K::ToBits { n: None, canon: true, be: false }),
-                NOp::new(K::ToBits { n: Some(255), canon: true, be: true }),
-                NOp::new(K::ToBytes { n: None, be: false }),
-            ];
-            let items: Vec<(usize, String)> = (0..ops_nc.len()).flat_map(|i| xs.iter().map(move |x| (i, x.to_string()))).collect();
             p.enumerate(
-                "to_le_bits.noncanonical",
-                "non-trivial iff x + p < 2^255 (two 255-bit representations), the decomposition layout was recognised and the rewritten witness was rejected",
+                "to_le_chunks(>=64bit)",
+                "non-trivial iff the honest decomposition with a chunk size >= 64 bits was checked on an in-domain input",
                 items,
                 16,
                 false,
                 |c| -> CaseResult {
-                    let x: BigUint = c.1.parse().expect("harness: decimal");
-                    noncanonical_probe(&ops_nc[c.0], &x)
+                    let op = ops18.iter().find(|o| o.name() == c.op).expect("harness: unknown op");
+                    match run_complete(op, c) {
+                        Ok(v) => Ok(v),
+                        Err(f) if f.signature.contains(":incomplete:") => {
+                            let kind = f.signature.rsplit(':').next().unwrap_or("").to_string();
+                            Err(Failure::new(format!("to_le_chunks(>=64bit):incomplete:{kind}"), format!("{}: {}", op.name(), f.detail)))
+                        }
+                        Err(f) => Err(f),
+                    }
                 },
             );
-        }
 
-        // (4) F19: targeted pair faults on the quotient / remainder hints
-        let items19 = f19_items();
-        p.enumerate(
-            "div_rem.wraparound",
-            "non-trivial iff dividend < d - (p mod d) and the pairs (quotient index i < 64, remainder index j < 4) were faulted with (floor(p/d), x + p mod d)",
-            (0..items19.len()).map(|idx| F19Case { idx }).collect(),
-            16,
-            false,
-            |c| -> CaseResult {
-                let (op, x) = &items19[c.idx];
-                f19_probe(op, x, 64)
-            },
-        );
-
-        // (6) S3: wrong public output + black-box linear repair of hints, replayed
-        // through the library's own witness generation (vp_circ::s3). Applied to the
-        // operations that rely on off-circuit hints (quotients, remainders,
-        // comparison / zero-test auxiliaries, sign and canonicity bits).
-        {
-            use vp_circ::e2::OpVisitor;
-            #[derive(Clone, Debug, serde::Serialize, serde::Deserialize)]
-            struct S3Item {
-                op: String,
-                input: Vec<vp_alg::Int>,
-            }
-            struct Collect {
-                items: Vec<S3Item>,
-                per_op: usize,
-            }
-            const HINTED: [&str; 14] = ["div_rem(", "rem(", "lower_than", "leq", "geq", "greater_than", "is_zero", "is_equal", "is_not_equal", "inv0", "sgn0", "is_canonical", "le_bits_", "div("];
-            impl OpVisitor for Collect {
-                fn visit<O: Op>(&mut self, op: &O, inputs: &[Vec<num_bigint::BigUint>]) {
-                    let name = op.name();
-                    if !HINTED.iter().any(|h| name.starts_with(h)) {
-                        return;
-                    }
-                    for x in inputs.iter().take(self.per_op) {
-                        self.items.push(S3Item { op: name.clone(), input: x.iter().map(|v| vp_alg::Int::of("", v)).collect() });
-                    }
+            // (3b) padding_flag finding: payload entirely in the last chunk
+            let ops_pf = padflag_ops();
+            let mut rng = SplitMix(vpcore::derive_seed(&["C04", "padflag"], p.seed));
+            let mut items = vec![];
+            for op in &ops_pf {
+                for _ in 0..p.tier.pick(2, 12) {
+                    let picks = (0..4).map(|_| ((rng.next_u64() % N_CLS as u64) as u8, rng.next_u64())).collect();
+                    items.push(Case { op: op.name(), picks, seed: rng.next_u64() });
                 }
             }
-            struct Runner<'a> {
-                item: &'a S3Item,
-                seed: u64,
-                quick: bool,
-                result: Option<CaseResult>,
-            }
-            impl OpVisitor for Runner<'_> {
-                fn visit<O: Op>(&mut self, op: &O, _inputs: &[Vec<num_bigint::BigUint>]) {
-                    if self.result.is_some() || op.name() != self.item.op {
-                        return;
-                    }
-                    let x: Vec<num_bigint::BigUint> = self.item.input.iter().map(|v| v.big()).collect();
-                    let r = vp_circ::s3::check_s3(op, &x, self.seed, 2, 2, if self.quick { 120 } else { 400 }, if self.quick { 6 } else { 40 });
-                    self.result = Some(r.map(|(st, v)| v.with(format!("searches>0:{} repairs>0:{} accepted-correct>0:{}", st.searches > 0, st.repairs_found > 0, st.accepted_correct > 0))));
-                }
-            }
-            let mut col = Collect { items: vec![], per_op: p.tier.pick(1, 3) };
-            visit_ops(&mut col, quick, p.seed);
-            let mut items = col.items;
-            if quick {
-                // a fixed-size sample, always including the division family
-                let mut rng = SplitMix(vpcore::derive_seed(&["C04", "s3"], p.seed));
-                let (div, mut rest): (Vec<_>, Vec<_>) = items.into_iter().partition(|i| i.op.starts_with("div_rem(") || i.op.starts_with("rem("));
-                let mut keep: Vec<S3Item> = div.into_iter().take(6).collect();
-                while keep.len() < 36 && !rest.is_empty() {
-                    let i = (rng.next_u64() % rest.len() as u64) as usize;
-                    keep.push(rest.swap_remove(i));
-                }
-                items = keep;
-            }
-            let seed = p.seed;
             p.enumerate(
-                "hinted.s3",
-                "operations relying on off-circuit hints x representative inputs: each public output replaced by other values (whole small range walked) and the violated constraints repaired by solving, black-box through replays, for another assignment in which the residual is affine (depth 2); any accepted replay must expose correct public values; non-trivial iff at least one affine repair was found",
+                "vector.padding_flag(0<len<=A)",
+                "non-trivial iff the vector's final length is in 1..=A (payload entirely in the last chunk) and the circuit's accepted flags were compared with the definition",
                 items,
                 16,
                 false,
-                move |item: &S3Item| -> CaseResult {
-                    let mut r = Runner { item, seed: seed ^ vpcore::digest(&item.op), quick, result: None };
-                    visit_ops(&mut r, quick, seed);
-                    r.result.unwrap_or_else(|| Err(Failure::new("harness:op-not-found-in-catalogue", item.op.clone())))
+                |c| -> CaseResult {
+                    let op = ops_pf.iter().find(|o| o.name() == c.op).expect("harness: unknown op");
+                    padflag_probe(op, c)
                 },
             );
+
+            // (3c) canonicity of the full-width bit decomposition: rewrite the whole
+            // decomposition to the representation of x + p
+            {
+                use num_bigint::BigUint;
+                let pm = modulus_p();
+                let lim = pow2(255) - &pm;
+                let mut rng = SplitMix(vpcore::derive_seed(&["C04", "noncanonical"], p.seed));
+                let mut xs: Vec<BigUint> = vec![big(0), big(1), big(2), &lim - big(1), &lim - big(2)];
+                for _ in 0..p.tier.pick(3, 40) {
+                    xs.push(BigUint::from_bytes_le(&rng.bytes(40)) % &lim);
+                }
+                let ops_nc = vec![
+                    NOp::new(K::ToBits { n: None, canon: true, be: false }),
+                    NOp::new(K::ToBits { n: Some(255), canon: true, be: true }),
+                    NOp::new(K::ToBytes { n: None, be: false }),
+                ];
+                let items: Vec<(usize, String)> = (0..ops_nc.len()).flat_map(|i| xs.iter().map(move |x| (i, x.to_string()))).collect();
+                p.enumerate(
+                    "to_le_bits.noncanonical",
+                    "non-trivial iff x + p < 2^255 (two 255-bit representations), the decomposition layout was recognised and the rewritten witness was rejected",
+                    items,
+                    16,
+                    false,
+                    |c| -> CaseResult {
+                        let x: BigUint = c.1.parse().expect("harness: decimal");
+                        noncanonical_probe(&ops_nc[c.0], &x)
+                    },
+                );
+            }
+
+            // (4) F19: targeted pair faults on the quotient / remainder hints
+            let items19 = f19_items();
+            p.enumerate(
+                "div_rem.wraparound",
+                "non-trivial iff dividend < d - (p mod d) and the pairs (quotient index i < 64, remainder index j < 4) were faulted with (floor(p/d), x + p mod d)",
+                (0..items19.len()).map(|idx| F19Case { idx }).collect(),
+                16,
+                false,
+                |c| -> CaseResult {
+                    let (op, x) = &items19[c.idx];
+                    f19_probe(op, x, 64)
+                },
+            );
+
+            // (6) S3: wrong public output + black-box linear repair of hints, replayed
+            // through the library's own witness generation (vp_circ::s3). Applied to the
+            // operations that rely on off-circuit hints (quotients, remainders,
+            // comparison / zero-test auxiliaries, sign and canonicity bits).
+            {
+                use vp_circ::e2::OpVisitor;
+                #[derive(Clone, Debug, serde::Serialize, serde::Deserialize)]
+                struct S3Item {
+                    op: String,
+                    input: Vec<vp_alg::Int>,
+                }
+                struct Collect {
+                    items: Vec<S3Item>,
+                    per_op: usize,
+                }
+                const HINTED: [&str; 14] = ["div_rem(", "rem(", "lower_than", "leq", "geq", "greater_than", "is_zero", "is_equal", "is_not_equal", "inv0", "sgn0", "is_canonical", "le_bits_", "div("];
+                impl OpVisitor for Collect {
+                    fn visit<O: Op>(&mut self, op: &O, inputs: &[Vec<num_bigint::BigUint>]) {
+                        let name = op.name();
+                        if !HINTED.iter().any(|h| name.starts_with(h)) {
+                            return;
+                        }
+                        for x in inputs.iter().take(self.per_op) {
+                            self.items.push(S3Item { op: name.clone(), input: x.iter().map(|v| vp_alg::Int::of("", v)).collect() });
+                        }
+                    }
+                }
+                struct Runner<'a> {
+                    item: &'a S3Item,
+                    seed: u64,
+                    quick: bool,
+                    result: Option<CaseResult>,
+                }
+                impl OpVisitor for Runner<'_> {
+                    fn visit<O: Op>(&mut self, op: &O, _inputs: &[Vec<num_bigint::BigUint>]) {
+                        if self.result.is_some() || op.name() != self.item.op {
+                            return;
+                        }
+                        let x: Vec<num_bigint::BigUint> = self.item.input.iter().map(|v| v.big()).collect();
+                        let r = vp_circ::s3::check_s3(op, &x, self.seed, 2, 2, if self.quick { 120 } else { 400 }, if self.quick { 6 } else { 40 });
+                        self.result = Some(r.map(|(st, v)| v.with(format!("searches>0:{} repairs>0:{} accepted-correct>0:{}", st.searches > 0, st.repairs_found > 0, st.accepted_correct > 0))));
+                    }
+                }
+                let mut col = Collect { items: vec![], per_op: p.tier.pick(1, 3) };
+                visit_ops(&mut col, quick, p.seed);
+                let mut items = col.items;
+                if quick {
+                    // a fixed-size sample, always including the division family
+                    let mut rng = SplitMix(vpcore::derive_seed(&["C04", "s3"], p.seed));
+                    let (div, mut rest): (Vec<_>, Vec<_>) = items.into_iter().partition(|i| i.op.starts_with("div_rem(") || i.op.starts_with("rem("));
+                    let mut keep: Vec<S3Item> = div.into_iter().take(6).collect();
+                    while keep.len() < 36 && !rest.is_empty() {
+                        let i = (rng.next_u64() % rest.len() as u64) as usize;
+                        keep.push(rest.swap_remove(i));
+                    }
+                    items = keep;
+                }
+                let seed = p.seed;
+                p.enumerate(
+                    "hinted.s3",
+                    "operations relying on off-circuit hints x representative inputs: each public output replaced by other values (whole small range walked) and the violated constraints repaired by solving, black-box through replays, for another assignment in which the residual is affine (depth 2); any accepted replay must expose correct public values; non-trivial iff at least one affine repair was found",
+                    items,
+                    16,
+                    false,
+                    move |item: &S3Item| -> CaseResult {
+                        let mut r = Runner { item, seed: seed ^ vpcore::digest(&item.op), quick, result: None };
+                        visit_ops(&mut r, quick, seed);
+                        r.result.unwrap_or_else(|| Err(Failure::new("harness:op-not-found-in-catalogue", item.op.clone())))
+                    },
+                );
+            }
+            // class-representative sweep over a rotating third of the catalogue (all of it in thorough)
+            vp_circ::catalogue_sweep!(p, "catalogue.sweep", vp_circ::ops_native::visit_ops, p.tier.pick(4, 1), p.tier.pick(80, 100_000), 16);
+        };
+        if p.is_replay() {
+            families();
+            targeted();
+        } else {
+            std::thread::scope(|sc| {
+                sc.spawn(&families);
+                targeted();
+            });
         }
     });
 }
